@@ -20,7 +20,8 @@ P["C01"] = dict(cat="proof",
 P["C07"] = dict(cat="proof",
     text="Coq: check_violator is sound for every matrix and index lists (acceptance implies a square in-range duplicate-free "
          "submatrix with |det| >= 2, hence not TU, via detE = MathComp \\det); check_min_violator gives |det| = 2 and TU after deleting "
-         "any row or column. Tie: every violator returned by CMRtuTest on the C01 streams (greedy and naive search) is checked.",
+         "any row or column; the oracle-free judge judge_tu_cert certifies every accepted 'not TU' answer at any size. Tie: every violator "
+         "returned by CMRtuTest on the C01 streams (greedy and naive search) and on large 3-sum families is checked.",
     note=NOTE_COMMON, tech="Coq-verified certificate checker run on every returned submatrix", ref="DESIGN.md C07")
 P["C13"] = dict(cat="proof",
     text="Coq: the pivot model is the GF(2)/GF(3) basis exchange (up to negating the pivot column), binary pivot is an involution, "
@@ -64,8 +65,10 @@ P["C08"] = dict(cat="proof",
     tech="Coq proof of SP heredity + verified certificate checker run on every output, across forced hash ranges", ref="DESIGN.md C08")
 P["C14"] = dict(cat="proof",
     text="Coq model rep_matrix / is_spanning_forest; exhaustive small multigraphs x offered forests (forests, non-forests, partial) x "
-         "coforest orders x reversals: matrix = model, transpose output = transpose, forest flag = definition.",
-    note=NOTE_COMMON + "edge lists with a repeated edge are outside the domain (not an edge set).",
+         "coforest orders x reversals: matrix = model, transpose output = transpose, forest flag = definition. Edge-list files: Coq grammar "
+         "model (EdgeModel.v, print/parse round trip proved) against CMRgraphCreateFromEdgeList on generated files (nodes by first "
+         "appearance, line order, forest/coforest labels, node labels).",
+    note=NOTE_COMMON + "edge lists with a repeated edge are outside the domain (not an edge set); labels outside the documented forms are not generated.",
     tech="Coq executable definition + exhaustive differential correspondence", ref="DESIGN.md C14")
 P["C17"] = dict(cat="proof",
     text="Coq: balanced_bf equals the definition over arbitrary duplicate-free index lists (incl. permutation invariance), violator check "
@@ -160,8 +163,10 @@ P["C12"] = dict(cat="proof",
 P["C20"] = dict(cat="proof",
     text="Every returned matrix in every stream is decoded from raw CSR arrays under the Coq predicate csr_wf; writers' output is parsed by the "
          "Coq grammar of doc/file-formats.md and read back; readers are compared with the Coq parser on valid and malformed byte strings.",
-    note=NOTE_COMMON + "fscanf token-prefix quirks (e.g. '1-', '+1', '1e3') and negative header counts are excluded or recorded as findings; edge-list and "
-         "submatrix files and the cmr-matrix tool are not yet covered.",
+    note=NOTE_COMMON + "fscanf token-prefix quirks (e.g. '1-', '+1', '1e3') and negative header counts are excluded or recorded as findings; matrix and "
+         "submatrix utilities (transpose, permute, slice, support, conversions, equality tests, 1-sum, submatrix print/read/slice/unslice) "
+         "and the edge-list reader are compared with dense Coq models (MatModel.v, EdgeModel.v); double-valued matrices and value-by-value "
+         "comparison of the cmr-matrix / cmr-k-ary outputs are not covered (the tools run under C11's sanitized CLI stream).",
     tech="Coq parser/printer model + CSR well-formedness predicate run on every output", ref="DESIGN.md C20")
 
 ORDER = ["C%02d" % i for i in range(1, 21)]
